@@ -5,6 +5,14 @@ package main
 // scratch property C00, VERIF_DUMP_ERRTABLE=1, and frozen here). errorsReturnedRule keeps
 // them that way: a failure that is reported today is not logged and forgotten tomorrow.
 var propagatedErrors = map[string][]string{
+	"M/h2/grpc.gunzip":                              {"compress/gzip.NewReader", "io/ioutil.ReadAll"},
+	"M/h2/grpc.deflate":                             {"io/ioutil.ReadAll"},
+	"M/h2.forwardPreface":                           {"(io.Writer).Write", "io.ReadFull"},
+	"(*M/h2.relay).decodeFull":                      {"(*golang.org/x/net/http2/hpack.Decoder).DecodeFull"},
+	"(*M/h2.relay).encodeFull":                      {"(*golang.org/x/net/http2/hpack.Encoder).WriteField"},
+	"(*M/trafficshape.Listener).Accept":             {"(net.Listener).Accept"},
+	"M/body.modifierFromJSON":                       {"M/parse.NewResult", "encoding/json.Unmarshal"},
+	"M/static.modifierFromJSON":                     {"M/parse.NewResult", "encoding/json.Unmarshal"},
 	"M.newID":                                       {"crypto/rand.Read"},
 	"M.newSession":                                  {"M.newID"},
 	"M.withSession":                                 {"M.newID"},
